@@ -118,7 +118,7 @@ impl Property for C01 {
             real: &["src/cache.rs", "src/anycache.rs", "src/entry.rs", "src/utils/private.rs (keys, lock wrappers)", "hashbrown/std HashMap", "ahash hashing (real) or SipHash"],
             stub: &["RwLock of each shard (detsim model; writer- or reader-preferring per run)", "hash seeds (deterministic stream)", "shard count (knob, hook H4)", "Source (in-memory; read is a scheduling point)"],
             assumptions: &["dangling handles are detected through the drop ledger (a value dropped while the model says it is stored) and wrong contents, not through memory errors"],
-            runs: (24_000, 1_500_000),
+            runs: (60_000, 2_000_000),
         }
     }
     fn generate(&self, g: &mut SplitMix, k: &mut SplitMix, _tier: Tier) -> (Knobs, Value) {
